@@ -209,6 +209,7 @@ package lfs
 //@ func (*GitFilter).Smudge
 //@   props C04 C01
 //@   requires @inv ptr != nil
+//@   monitor smudgecalls[0] := old(smudgecalls(0)) + 1
 //@   at call (*lfs.GitFilter).readLocalFile:1 assert fexists(arg3__) && len(fdata(arg3__)) == ptr.Size
 //@   at call (*lfs.GitFilter).readLocalFile:1 assert arg1__ == writer && arg2__ == ptr && (arg3__ == objpath(ptr.Oid) || arg3__ == devnull)
 //@ func (*GitFilter).readLocalFile
@@ -314,8 +315,30 @@ package lfs
 // cat-file --batch) are assumed frames.
 //@ func revListShas
 //@   assumed
-//@   props C03
+//@   props C03 C13
 //@   modifies fresh
+// Checked although the contract is assumed: the revisions are listed for the
+// refs given, with the scanner's own settings (a single-revision scan stays
+// one: SkipDeletedBlobs is what makes rev-list not walk the ancestry).
+//@   requires @inv scanner != nil
+//@   at call git.NewRevListScanner:1 assert arg0__ == include && arg1__ == exclude && arg2__.SkipDeletedBlobs == scanner.skipDeletedBlobs && arg2__.CommitsOnly == scanner.commitsOnly && arg2__.SkippedRefs == scanner.skippedRefs && arg2__.Remote == scanner.remote
+
+// C13: fsck --pointers of one revision looks at the tree of that revision and
+// no other: the revision list is made for that ref alone, commits only, and
+// without walking its ancestry; for a range it is include-minus-exclude.
+//@ func (*GitScanner).ScanRefByTree
+//@   props C13
+//@   requires @inv s != nil && s.cfg != nil
+//@   at call lfs.scanRefsByTree:1 assert @C13 arg0__ == s && s.skipDeletedBlobs && s.commitsOnly && len(arg2__) == 1 && arg2__[0] == old(ref) && len(arg3__) == 0
+//@ func (*GitScanner).ScanRefRangeByTree
+//@   props C13
+//@   requires @inv s != nil && s.cfg != nil
+//@   at call lfs.scanRefsByTree:1 assert @C13 arg0__ == s && s.commitsOnly && len(arg2__) == 1 && arg2__[0] == old(include) && len(arg3__) == 1 && arg3__[0] == old(exclude)
+//@ func scanRefsByTree
+//@   assumed
+//@   props C13
+//@   modifies heap
+//@   at call lfs.revListShas:1 assert arg0__ == scanner && arg1__ == include && arg2__ == exclude
 //@ func catFileBatchCheck
 //@   assumed
 //@   props C03
